@@ -921,6 +921,11 @@ impl<'a> Ev<'a> {
                         s2.events.push(Event::Index { place: base.short(), idx: idx.short(), site });
                         let r = match (&base, &idx) {
                             (Val::Array(vs), Val::Int(i)) | (Val::List(vs), Val::Int(i)) if (*i as usize) < vs.len() && !matches!(vs[*i as usize], Val::Rep { .. }) => vs[*i as usize].clone(),
+                            (Val::Str(x), Val::Opaque { what, deps }) if what == "range" && deps.len() == 2 => {
+                                let lo = match &deps[0] { Val::Int(i) => *i as usize, _ => 0 };
+                                let hi = match &deps[1] { Val::Int(i) => *i as usize, _ => x.len() };
+                                if lo <= hi && hi <= x.len() { Val::Str(x[lo..hi].to_string()) } else { Val::opaque("index", vec![base.clone(), idx]) }
+                            }
                             (Val::Sym { ty, path }, _) => Val::Sym { ty: ty.arg0(), path: format!("{path}[{}]", idx.short()) },
                             _ => Val::opaque("index", vec![base.clone(), idx]),
                         };
@@ -994,6 +999,18 @@ impl<'a> Ev<'a> {
                 r
             }
             Cast(c) => self.eval_expr(st, &c.expr),
+            Range(r) => {
+                let lo = r.start.as_ref().map(|x| (**x).clone());
+                let hi = r.end.as_ref().map(|x| (**x).clone());
+                let mut es: Vec<&syn::Expr> = Vec::new();
+                if let Some(x) = &lo { es.push(x); }
+                if let Some(x) = &hi { es.push(x); }
+                let has_lo = lo.is_some();
+                self.eval_args(st, &es).into_iter().map(|(s, r)| match r {
+                    Ok(vs) => { let mut it = vs.into_iter(); let l = if has_lo { it.next().unwrap_or(Val::Unit) } else { Val::Unit }; let h = it.next().unwrap_or(Val::Unit); (s, Flow::Val(Val::opaque("range", vec![l, h]))) }
+                    Err(f) => (s, f),
+                }).collect()
+            }
             other => {
                 self.unsup(&format!("expression kind {}", other.to_token_stream().to_string().chars().take(40).collect::<String>()), other.span());
                 vec![]
@@ -1601,6 +1618,12 @@ impl<'a> Ev<'a> {
             ("len", Val::Array(vs)) => Val::Int(vs.len() as i128),
             ("len", Val::List(vs)) if !vs.iter().any(|x| matches!(x, Val::Rep { .. })) => Val::Int(vs.len() as i128),
             ("is_empty", Val::Array(vs)) => Val::Bool(vs.is_empty()),
+            ("len", Val::Str(x)) => Val::Int(x.len() as i128),
+            ("strip_suffix", Val::Str(x)) if matches!(args.first(), Some(Val::Str(_))) => { let Some(Val::Str(sfx)) = args.first() else { unreachable!() }; match x.strip_suffix(sfx.as_str()) { Some(r) => Val::some(Val::Str(r.to_string())), None => Val::none() } }
+            ("strip_prefix", Val::Str(x)) if matches!(args.first(), Some(Val::Str(_))) => { let Some(Val::Str(sfx)) = args.first() else { unreachable!() }; match x.strip_prefix(sfx.as_str()) { Some(r) => Val::some(Val::Str(r.to_string())), None => Val::none() } }
+            ("ends_with", Val::Str(x)) if matches!(args.first(), Some(Val::Str(_))) => { let Some(Val::Str(sfx)) = args.first() else { unreachable!() }; Val::Bool(x.ends_with(sfx.as_str())) }
+            ("starts_with", Val::Str(x)) if matches!(args.first(), Some(Val::Str(_))) => { let Some(Val::Str(sfx)) = args.first() else { unreachable!() }; Val::Bool(x.starts_with(sfx.as_str())) }
+            ("to_string" | "to_owned" | "as_str", Val::Str(_)) => rv.clone(),
             ("rev", Val::Array(vs)) => Val::Array(vs.iter().rev().cloned().collect()),
             ("any" | "all", Val::Array(vs)) if matches!(args.first(), Some(Val::Closure(_))) => {
                 // short-circuit fold, path-sensitively
